@@ -577,6 +577,76 @@ func checkTombstonePairing(r *Run, f *ssa.Function, name string, isPut bool) {
 				}
 			}
 			pairs++
+			// both halves on every success exit of the transaction function (no path that performs one
+			// half and returns successfully without the other)
+			{
+				isHalf := func(origin string) func(ssa.Instruction) bool {
+					return func(in ssa.Instruction) bool {
+						c, isC := in.(ssa.CallInstruction)
+						if !isC {
+							return false
+						}
+						op, key, _ := txnOp(c)
+						if op == "" {
+							return false
+						}
+						o, _ := keyOrigin(key, g, 0)
+						return o == origin
+					}
+				}
+				var ef edgeFilter
+				if g == f {
+					sc := runSCCP(f, &AEnv{Atom: versionedAtom(true)})
+					ef = func(b *ssa.BasicBlock, i int) bool {
+						if !sc.EdgeFeasible(b, i) {
+							return false
+						}
+						// batch methods: `batch.vctx != nil` selects the versioned path
+						if ifi, isIf := b.Instrs[len(b.Instrs)-1].(*ssa.If); isIf {
+							if bo, isBo := ifi.Cond.(*ssa.BinOp); isBo && (bo.Op == token.NEQ || bo.Op == token.EQL) && isNilConst(bo.Y) {
+								if ld, isLd := bo.X.(*ssa.UnOp); isLd {
+									if fa, isFa := ld.X.(*ssa.FieldAddr); isFa {
+										if nm, _, _ := fieldName(fa); nm == "vctx" {
+											if bo.Op == token.NEQ {
+												return i == 0
+											}
+											return i == 1
+										}
+									}
+								}
+							}
+						}
+						return true
+					}
+				}
+				for _, half := range []string{"TombstoneKey", "ConstructKey"} {
+					other := "ConstructKey"
+					if half == "ConstructKey" {
+						other = "TombstoneKey"
+					}
+					// an operation of this half reachable from the entry without the other half, and from it a
+					// success exit still without the other half
+					var wit []ssa.Instruction
+					for _, c := range calls(g) {
+						if !isHalf(half)(c) {
+							continue
+						}
+						pre := findPath(g, nil, isHalf(other), func(in ssa.Instruction) bool { return in == ssa.Instruction(c) }, ef)
+						if pre == nil {
+							continue
+						}
+						if p := findPath(g, c, isHalf(other), successExit, ef); p != nil {
+							wit = append(pre, p...)
+						}
+					}
+					// and from entry: a success exit that performed neither is fine (nothing written), but one that
+					// skipped only this half is caught from the other half's op above
+					what := map[string]string{"TombstoneKey": "tombstone", "ConstructKey": "data-key"}
+					r.check(wit == nil, name+":"+what[half]+"-op-always-followed-by-other-half",
+						"after the "+what[half]+" operation every successful return of the transaction has performed the other half",
+						"a transaction can perform the "+what[half]+" operation and return successfully without the "+what[other]+" operation (e.g. a shortcut when the version holds its own value): a deleted key keeps showing an ancestor's value / a re-put key stays hidden", w.fpos(g), w.renderPath(wit)...)
+				}
+			}
 			r.check(ok, name+":paired-in-one-transaction",
 				"data-key "+wantData+" and tombstone "+wantTomb+" for the same datum key are issued in the same transaction function "+fname(g),
 				"the tombstone "+wantTomb+" is not issued in the same transaction as the data-key "+wantData+" for the same datum key", w.fpos(g))
